@@ -157,6 +157,7 @@ func (c *matcherCompiler) compileImports(imps []*ast.ImportSpec) ImportsMatcher 
 // Match matches a block of imports in a file.
 func (m ImportsMatcher) Match(file *ast.File, d data.Data) (_ data.Data, ok bool) {
 	matchedImports := make([]string, 0, len(m.Imports))
+	matchedNames := make([]string, 0, len(m.Imports))
 	for _, m := range m.Imports {
 		d, ok = m.Match(file, d)
 		if !ok {
@@ -164,10 +165,12 @@ func (m ImportsMatcher) Match(file *ast.File, d data.Data) (_ data.Data, ok bool
 		}
 
 		matchedImports = append(matchedImports, m.Path)
+		matchedNames = append(matchedNames, m.NameS)
 	}
 
 	return data.WithValue(d, importsKey, importsData{
 		MatchedImports: matchedImports,
+		MatchedNames:   matchedNames,
 	}), true
 }
 
@@ -177,6 +180,7 @@ var importsKey _importsKey
 
 type importsData struct {
 	MatchedImports []string // import paths
+	MatchedNames   []string // names the patch gives these imports, if any
 }
 
 // ImportReplacer replaces imports in a file.
@@ -303,8 +307,20 @@ func (r ImportsReplacer) Cleanup(d data.Data, f *ast.File, newNames []string) er
 		taken[n] = struct{}{}
 	}
 
+	// Imports on context lines of the patch are matched too, but they are
+	// on both sides of it: the patch does not ask for them to go away.
+	type namedImport struct{ Name, Path string }
+	kept := make(map[namedImport]struct{})
+	for _, imp := range r.Imports {
+		kept[namedImport{Name: imp.NameS, Path: imp.Path}] = struct{}{}
+	}
+
 	// Delete matched imports that are no longer used.
-	for _, imp := range impData.MatchedImports {
+	for i, imp := range impData.MatchedImports {
+		if _, ok := kept[namedImport{Name: impData.MatchedNames[i], Path: imp}]; ok {
+			continue
+		}
+
 		var importName, pkgName string
 
 		if idata := new(importData); data.Lookup(d, importKey(imp), idata) {
